@@ -89,7 +89,8 @@ func forms() []form {
 		{"until", "0 | until(. >= $n; .+1)", "all"},
 		{"repeat", "0 | repeat(.+1)", "take"},
 		{"repeat-const", "repeat(1)", "take"},
-		{"repeat-select", "first(0 | repeat(.+1) | select(. >= $n))", "all"},
+		{"repeat-collect", "[limit($n; repeat(1))] | length", "all"},
+		{"repeat-jq", "def rep(f): def r: ., (f | r); r; first(0 | rep(.+1) | select(. >= $n))", "all"},
 		{"recurse-chain", "0 | recurse(if . < $n then .+1 else empty end)", "all"},
 		{"recurse-infinite", "0 | recurse(.+1)", "take"},
 		{"recurse-cond", "0 | recurse(.+1; . < $n)", "all"},
@@ -184,10 +185,12 @@ func measureRun(f form, n int) (m measure) {
 		return
 	}
 	pc := &probeCtx{open: make(chan struct{}), every: 1}
-	var ctx context.Context = pc
-	if f.mode == "polls" { // a loop that never returns: the run is bounded by 20n instructions
-		ctx = &limitCtx{probeCtx: pc, limit: 20 * n}
+	// every run has an instruction budget; mode "polls" (a loop that never returns) is cut at 20n instructions
+	budget := 3000*n + 200000
+	if f.mode == "polls" {
+		budget = 20 * n
 	}
+	var ctx context.Context = &limitCtx{probeCtx: pc, limit: budget}
 	it := code.RunWithContext(ctx, nil, n)
 	pc.it = it
 	defer func() {
@@ -204,7 +207,10 @@ func measureRun(f form, n int) (m measure) {
 			break
 		}
 		if e, isErr := v.(error); isErr {
-			if f.mode == "polls" && e == context.Canceled {
+			if e == context.Canceled {
+				if f.mode != "polls" {
+					m.err = fmt.Sprintf("instruction budget %d exceeded", budget)
+				}
 				break
 			}
 			m.err = "error: " + e.Error()
